@@ -647,7 +647,11 @@ func c12Extra(w *World, r *Report) {
 		}
 	})
 	isLookup := func(v ssa.Value) bool {
-		l, ok := peel(v).(*ssa.Lookup)
+		v = peel(v)
+		if ex, isEx := v.(*ssa.Extract); isEx && ex.Index == 0 {
+			v = ex.Tuple // value, found := pathParams[key.Path]
+		}
+		l, ok := v.(*ssa.Lookup)
 		return ok && Path(l.X) == "param:pathParams" && strings.HasSuffix(Path(l.Index), ".Path")
 	}
 	isPath := func(v ssa.Value) bool { return strings.HasSuffix(Path(v), ".Path") && !isLookup(v) }
@@ -665,6 +669,12 @@ func c12Extra(w *World, r *Report) {
 			ok = ok && Derives(alt.Val, func(x ssa.Value) bool { return isCallTo0(x, "crypto/sha256.Sum256") }) &&
 				Derives(alt.Val, func(x ssa.Value) bool { return x == ssa.Value(a) })
 		}
+		// every configured entry is looked at: the loop is not left early
+		var brk []string
+		for _, h := range loopHeadersOf(ex) {
+			brk = append(brk, loopBreaks(h)...)
+		}
+		r.Check(len(brk) == 0, "R3", "extractHashedPathParams/every-entry-visited", ex.Pos(), "the loop over the configured entries is never left by break (an absent or foreign entry is skipped, not the rest of the list): %v", brk)
 		r.Check(ok, "R3", "extractHashedPathParams/selected-present-path-params", posOf(a),
 			"the hashed key part collects path:value for each configured path-parameter entry (payload type == path params %q) that is present (value %q \"\"), and the returned digest derives from the collected list", opT, opV)
 	} else {
